@@ -37,7 +37,7 @@ Proof.
   - destruct ((t =? tBlobString) || (t =? tVerbatim)) eqn:E; [|discriminate]. inversion Hp; subst p.
     assert (Ht : t = tBlobString \/ t = tVerbatim) by (apply orb_true_iff in E as [E|E]; apply N.eqb_eq in E; auto).
     cbn [wf] in Hwf. apply andb_true_iff in Hwf as [_ Hs].
-    assert (Hl : (zlen s < two63)%Z).
+    assert (Hl : (zlen s + 2 < two63)%Z).
     { apply blob_ok_spec in Hs. unfold max_alloc, two63 in *. lia. }
     destruct (runw_stream_counted B HB f t s rest w Ht Hl) as (w' & E1 & E2).
     destruct (unlimited_write w s Hw) as (Ea & Ef & _ & _). rewrite Ea, Ef in E1. rewrite Ea in E2. eauto.
@@ -100,7 +100,7 @@ Proof.
   - destruct ((t =? tBlobString) || (t =? tVerbatim)) eqn:E; [|discriminate]. inversion Hp; subst p.
     assert (Ht : t = tBlobString \/ t = tVerbatim) by (apply orb_true_iff in E as [E|E]; apply N.eqb_eq in E; auto).
     cbn [wf] in Hwf. apply andb_true_iff in Hwf as [_ Hs].
-    assert (Hl : (zlen s < two63)%Z).
+    assert (Hl : (zlen s + 2 < two63)%Z).
     { apply blob_ok_spec in Hs. unfold max_alloc, two63 in *. lia. }
     destruct (runw_stream_counted B HB f t s rest w Ht Hl) as (w' & E1 & E2).
     destruct (Hwr s) as (Ea & Ef & _). rewrite Ea, Ef in E1. rewrite Ea in E2. exists w'. split; [exact E1|exact E2].
